@@ -1,0 +1,278 @@
+//go:build verif
+
+package device
+
+import (
+	"time"
+)
+
+// State accessors and state-setting hooks for the verification harness
+// (build tag verif only).  Add-only; nothing here is reachable without the tag.
+
+// VerifQueueLens reports the lengths of the three shared device queues.
+func (device *Device) VerifQueueLens() (enc, dec, hs int) {
+	return len(device.queue.encryption.c), len(device.queue.decryption.c), len(device.queue.handshake.c)
+}
+
+// VerifKeypair describes one keypair slot.
+type VerifKeypair struct {
+	Present     bool
+	LocalIndex  uint32
+	RemoteIndex uint32
+	IsInitiator bool
+	AgeNanos    int64
+	SendNonce   uint64
+}
+
+// VerifPeerState is a snapshot of a peer's protocol state.
+type VerifPeerState struct {
+	Found                bool
+	Running              bool
+	Previous             VerifKeypair
+	Current              VerifKeypair
+	Next                 VerifKeypair
+	HandshakeState       int
+	HandshakeLocalIndex  uint32
+	HandshakeRemoteIndex uint32
+	LastTimestamp        [12]byte
+	Endpoint             string
+	StagedLen            int
+	OutboundLen          int
+	InboundLen           int
+	RxBytes              uint64
+	TxBytes              uint64
+	LastHandshakeNano    int64
+	HandshakeAttempts    uint32
+	PersistentKeepalive  uint32
+	HasCookie            bool
+}
+
+func verifKeypair(kp *Keypair) VerifKeypair {
+	if kp == nil {
+		return VerifKeypair{}
+	}
+	return VerifKeypair{
+		Present:     true,
+		LocalIndex:  kp.localIndex,
+		RemoteIndex: kp.remoteIndex,
+		IsInitiator: kp.isInitiator,
+		AgeNanos:    int64(time.Since(kp.created)),
+		SendNonce:   kp.sendNonce.Load(),
+	}
+}
+
+// VerifPeer returns a snapshot of the peer with the given public key.
+func (device *Device) VerifPeer(pk NoisePublicKey) VerifPeerState {
+	device.peers.RLock()
+	peer := device.peers.keyMap[pk]
+	device.peers.RUnlock()
+	if peer == nil {
+		return VerifPeerState{}
+	}
+	var st VerifPeerState
+	st.Found = true
+	st.Running = peer.isRunning.Load()
+	peer.keypairs.RLock()
+	st.Previous = verifKeypair(peer.keypairs.previous)
+	st.Current = verifKeypair(peer.keypairs.current)
+	st.Next = verifKeypair(peer.keypairs.next.Load())
+	peer.keypairs.RUnlock()
+	peer.handshake.mutex.RLock()
+	st.HandshakeState = int(peer.handshake.state)
+	st.HandshakeLocalIndex = peer.handshake.localIndex
+	st.HandshakeRemoteIndex = peer.handshake.remoteIndex
+	st.LastTimestamp = peer.handshake.lastTimestamp
+	peer.handshake.mutex.RUnlock()
+	peer.endpoint.Lock()
+	if peer.endpoint.val != nil {
+		st.Endpoint = peer.endpoint.val.DstToString()
+	}
+	peer.endpoint.Unlock()
+	st.StagedLen = len(peer.queue.staged)
+	if peer.queue.outbound != nil {
+		st.OutboundLen = len(peer.queue.outbound.c)
+	}
+	if peer.queue.inbound != nil {
+		st.InboundLen = len(peer.queue.inbound.c)
+	}
+	st.RxBytes = peer.rxBytes.Load()
+	st.TxBytes = peer.txBytes.Load()
+	st.LastHandshakeNano = peer.lastHandshakeNano.Load()
+	st.HandshakeAttempts = peer.timers.handshakeAttempts.Load()
+	st.PersistentKeepalive = peer.persistentKeepaliveInterval.Load()
+	peer.cookieGenerator.RLock()
+	st.HasCookie = !peer.cookieGenerator.mac2.cookieSet.IsZero()
+	peer.cookieGenerator.RUnlock()
+	return st
+}
+
+// VerifStagedPackets reports the number of packets (not containers) staged for a peer.
+func (device *Device) VerifStagedPackets(pk NoisePublicKey) int {
+	device.peers.RLock()
+	peer := device.peers.keyMap[pk]
+	device.peers.RUnlock()
+	if peer == nil {
+		return 0
+	}
+	n := 0
+	var held []*QueueOutboundElementsContainer
+	for {
+		select {
+		case c := <-peer.queue.staged:
+			n += len(c.elems)
+			held = append(held, c)
+			continue
+		default:
+		}
+		break
+	}
+	for _, c := range held {
+		peer.queue.staged <- c
+	}
+	return n
+}
+
+// VerifIndexEntry describes one index-table entry.
+type VerifIndexEntry struct {
+	Index       uint32
+	Peer        NoisePublicKey
+	IsHandshake bool
+	IsKeypair   bool
+}
+
+// VerifIndexTable dumps the index table.
+func (device *Device) VerifIndexTable() []VerifIndexEntry {
+	device.indexTable.RLock()
+	defer device.indexTable.RUnlock()
+	var out []VerifIndexEntry
+	for idx, e := range device.indexTable.table {
+		ve := VerifIndexEntry{Index: idx, IsHandshake: e.handshake != nil, IsKeypair: e.keypair != nil}
+		if e.peer != nil {
+			ve.Peer = e.peer.handshake.remoteStatic
+		}
+		out = append(out, ve)
+	}
+	return out
+}
+
+// VerifPeerKeys lists the configured peers.
+func (device *Device) VerifPeerKeys() []NoisePublicKey {
+	device.peers.RLock()
+	defer device.peers.RUnlock()
+	var out []NoisePublicKey
+	for pk := range device.peers.keyMap {
+		out = append(out, pk)
+	}
+	return out
+}
+
+// VerifSetSendNonce sets the send counter of the peer's current keypair.
+func (device *Device) VerifSetSendNonce(pk NoisePublicKey, v uint64) bool {
+	device.peers.RLock()
+	peer := device.peers.keyMap[pk]
+	device.peers.RUnlock()
+	if peer == nil {
+		return false
+	}
+	kp := peer.keypairs.Current()
+	if kp == nil {
+		return false
+	}
+	kp.sendNonce.Store(v)
+	return true
+}
+
+// VerifShiftKeypairAges moves the creation time of all the peer's keypairs d into the past.
+func (device *Device) VerifShiftKeypairAges(pk NoisePublicKey, d time.Duration) bool {
+	device.peers.RLock()
+	peer := device.peers.keyMap[pk]
+	device.peers.RUnlock()
+	if peer == nil {
+		return false
+	}
+	peer.keypairs.Lock()
+	defer peer.keypairs.Unlock()
+	for _, kp := range []*Keypair{peer.keypairs.previous, peer.keypairs.current, peer.keypairs.next.Load()} {
+		if kp != nil {
+			kp.created = kp.created.Add(-d)
+		}
+	}
+	return true
+}
+
+// VerifShiftHandshakeTimes moves lastInitiationConsumption and lastSentHandshake d into the past.
+func (device *Device) VerifShiftHandshakeTimes(pk NoisePublicKey, d time.Duration) bool {
+	device.peers.RLock()
+	peer := device.peers.keyMap[pk]
+	device.peers.RUnlock()
+	if peer == nil {
+		return false
+	}
+	peer.handshake.mutex.Lock()
+	defer peer.handshake.mutex.Unlock()
+	peer.handshake.lastInitiationConsumption = peer.handshake.lastInitiationConsumption.Add(-d)
+	peer.handshake.lastSentHandshake = peer.handshake.lastSentHandshake.Add(-d)
+	return true
+}
+
+// VerifForceUnderLoad makes IsUnderLoad report true for d (d <= 0 clears it).
+func (device *Device) VerifForceUnderLoad(d time.Duration) {
+	if d <= 0 {
+		device.rate.underLoadUntil.Store(0)
+		return
+	}
+	device.rate.underLoadUntil.Store(time.Now().Add(d).UnixNano())
+}
+
+// VerifIsUnderLoad exposes IsUnderLoad.
+func (device *Device) VerifIsUnderLoad() bool {
+	return device.IsUnderLoad()
+}
+
+// VerifShiftCookieSecret moves the cookie checker's secret creation time d into the past.
+func (device *Device) VerifShiftCookieSecret(d time.Duration) {
+	device.cookieChecker.Lock()
+	defer device.cookieChecker.Unlock()
+	if !device.cookieChecker.mac2.secretSet.IsZero() {
+		device.cookieChecker.mac2.secretSet = device.cookieChecker.mac2.secretSet.Add(-d)
+	}
+}
+
+// VerifShiftPeerCookie moves the peer's received-cookie time d into the past.
+func (device *Device) VerifShiftPeerCookie(pk NoisePublicKey, d time.Duration) bool {
+	device.peers.RLock()
+	peer := device.peers.keyMap[pk]
+	device.peers.RUnlock()
+	if peer == nil {
+		return false
+	}
+	peer.cookieGenerator.Lock()
+	defer peer.cookieGenerator.Unlock()
+	if !peer.cookieGenerator.mac2.cookieSet.IsZero() {
+		peer.cookieGenerator.mac2.cookieSet = peer.cookieGenerator.mac2.cookieSet.Add(-d)
+	}
+	return true
+}
+
+// VerifPoolCounts reports Get-not-yet-Put counts of the five pools (meaningful
+// only when the pools are bounded, see VerifPoolMax):
+// inbound containers, outbound containers, message buffers, inbound elements, outbound elements.
+func (device *Device) VerifPoolCounts() [5]uint32 {
+	rd := func(p *WaitPool) uint32 {
+		p.lock.Lock()
+		defer p.lock.Unlock()
+		return p.count
+	}
+	return [5]uint32{
+		rd(device.pool.inboundElementsContainer),
+		rd(device.pool.outboundElementsContainer),
+		rd(device.pool.messageBuffers),
+		rd(device.pool.inboundElements),
+		rd(device.pool.outboundElements),
+	}
+}
+
+// VerifDeviceState reports 0 = down, 1 = up, 2 = closed.
+func (device *Device) VerifDeviceState() uint32 {
+	return uint32(device.deviceState())
+}
